@@ -618,6 +618,8 @@ def main(tier):
     import c02
     c02.rule_AB(ck, {k: v for k, v in units.items() if k in ('rt_builtin', 'mpi_rt')})
     # an application must not see what earlier ones left in overwritten outputs (even NaN / Inf): zero-coefficient overwrite of the backend primitives (shared with C07)
+    import c15
+    c15.rule_E(ck, {k: v for k, v in units.items() if k == 'rt_builtin'})     # cleared containers carry no state (shared with C15)
     import c07
     c07.rule_zero(ck, {k: v for k, v in units.items() if k == 'rt_builtin'}, floor=8)
     ck.assumptions += ['index arithmetic in range for all inputs and leaks on exception paths are not decided',
